@@ -703,31 +703,52 @@ def check_C14(tier):
 
 # ---------------------------------------------------------------------------------------------- C19
 def size_families(k):
-    """scalable families of depth k: sequenced / nested branch points followed by further code"""
+    """scalable families of depth k: every kind of branch point x every kind of position the rest of the program can be in"""
+    decl = ("data T { A, B(v: i64), C(l: T, r: T) }\ncodata F { ap(x: i64): i64 }\n"
+            "def f(x: i64, y: i64): i64 { x + y }\ndef mk(): F { new { ap(x) => x } }\n")
+
+    def branch(kind, i, var):
+        # a branch point of type i64 depending on variable `var`
+        if kind == "if":
+            return "if %s == %d { %s + 1 } else { %s * 2 }" % (var, i, var, var)
+        if kind == "ifz":
+            return "if %s <= 0 { 1 } else { 2 }" % var
+        if kind == "case":
+            return "t.case { A => %s, B(v) => v + %s, C(l, r) => %s * 2 }" % (var, var, var)
+        if kind == "pair":   # critical pair: a data value chosen by a conditional, then matched
+            return "(if %s == %d { A } else { B(%d) }).case { A => %s, B(v) => v, C(l, r) => 0 }" % (var, i, i, var)
+        if kind == "label":
+            return "label a%d { if %s == %d { goto a%d (%s + 1) } else { %s } }" % (i, var, i, i, var, var)
+        raise ValueError(kind)
+
+    def nest(kind, pos, i):
+        # the program of depth k-i: branch point i, then the rest in position `pos`
+        if i == k:
+            return "x%d" % k if pos == "let" else "x0"
+        br = branch(kind, i, "x%d" % i if pos == "let" else "x0")
+        rest = nest(kind, pos, i + 1)
+        if pos == "let":
+            return "let x%d: i64 = %s; %s" % (i + 1, br, rest)
+        if pos == "call":
+            return "let y%d: i64 = %s; f(y%d, %s)" % (i, br, i, rest)
+        if pos == "callarg":
+            return "f(%s, %s)" % ("(" + br + ")", "(" + rest + ")")
+        if pos == "operand":
+            return "(%s) + (%s)" % (br, rest)
+        if pos == "ctor":
+            return "C(B(%s), B(%s)).case { A => 0, B(v) => v, C(l, r) => 1 }" % (br, rest)
+        if pos == "dtor":
+            return "mk().ap(%s) + (%s)" % ("(" + br + ")", rest) if False else "mk().ap((%s) + (%s))" % (br, rest)
+        if pos == "print":
+            return "println_i64(%s); %s" % (br, rest)
+        if pos == "scrut":
+            return "(if (%s) == 0 { A } else { B(%s) }).case { A => 0, B(v) => v, C(l, r) => 1 }" % (br, "(" + rest + ")")
+        raise ValueError(pos)
     fams = {}
-    # sequenced conditionals, each followed by the rest of the program
-    lets = "".join("let x%d: i64 = if x%d == %d { x%d + 1 } else { x%d * 2 }; " % (i + 1, i, i, i, i) for i in range(k))
-    fams["seq_if"] = "def main(x0: i64): i64 { %sx%d }\n" % (lets, k)
-    # conditionals nested in operand position
-    e = "x0"
-    for i in range(k):
-        e = "(if %s < %d { %s + 1 } else { %s - 1 })" % (e, i, "x0", "x0") if i % 2 else "((if x0 == %d { 1 } else { 2 }) + %s)" % (i, e)
-    fams["operand_if"] = "def main(x0: i64): i64 { %s }\n" % e
-    # chain of lets over matches on a three-constructor type
-    decl = "data T { A, B(v: i64), C(l: T, r: T) }\n"
-    lets = "".join("let y%d: i64 = t.case { A => y%d, B(v) => v + y%d, C(l, r) => y%d * 2 }; " % (i + 1, i, i, i) for i in range(k))
-    fams["seq_case"] = decl + "def f(t: T, y0: i64): i64 { %sy%d }\ndef main(x0: i64): i64 { f(C(A, B(x0)), x0) }\n" % (lets, k)
-    # critical pairs over a multi-constructor type: a data value chosen by a conditional, then matched
-    lets = "".join("let t%d: T = if x0 == %d { A } else { B(%d) }; let z%d: i64 = t%d.case { A => z%d, B(v) => v, C(l, r) => 0 }; " % (i, i, i, i + 1, i, i) for i in range(k))
-    fams["critical_pairs"] = decl + "def main(x0: i64): i64 { let z0: i64 = x0; %sz%d }\n" % (lets, k)
-    # matches nested in scrutinee position
-    e = "B(x0)"
-    for i in range(k):
-        e = "(%s.case { A => B(%d), B(v) => if v == %d { A } else { B(v) }, C(l, r) => l })" % (e, i, i)
-    fams["scrutinee_case"] = decl + "def main(x0: i64): i64 { %s.case { A => 0, B(v) => v, C(l, r) => 1 } }\n" % e
-    # label/goto sequenced
-    lets = "".join("let w%d: i64 = label a%d { if w%d == %d { goto a%d (w%d + 1) } else { w%d } }; " % (i + 1, i, i, i, i, i, i) for i in range(k))
-    fams["seq_label"] = "def main(w0: i64): i64 { %sw%d }\n" % (lets, k)
+    for kind in ("if", "ifz", "case", "pair", "label"):
+        for pos in ("let", "call", "callarg", "operand", "ctor", "dtor", "print", "scrut"):
+            body = nest(kind, pos, 0)
+            fams["%s_%s" % (kind, pos)] = decl + "def g(t: T, x0: i64): i64 { %s }\ndef main(x0: i64): i64 { g(C(A, B(x0)), x0) }\n" % body
     return fams
 
 
@@ -738,17 +759,39 @@ def check_C19(tier):
     work = fresh_dir(WORK, "C19")
     ks = [4, 8, 12, 16]
     lst = []
-    for k in ks:
-        for nm, src in size_families(k).items():
-            lst.append({"name": "%s_%d" % (nm, k), "kind": "fun", "src": src})
-    lp = os.path.join(work, "list.json")
-    json.dump(lst, open(lp, "w"))
     art = os.path.join(work, "art")
+    early = []
+    for stage_ks in ([4, 8], [12], [16]):
+        part = []
+        for k in stage_ks:
+            for nm, src in size_families(k).items():
+                if nm in {e[0] for e in early}:
+                    continue
+                part.append({"name": "%s_%d" % (nm, k), "kind": "fun", "src": src})
+        lp = os.path.join(work, "list%d.json" % stage_ks[0])
+        json.dump(part, open(lp, "w"))
+        sccv("pipeline", lp, art, "core,axcut,x86", timeout=1200)
+        lst += part
+        # a family that already grew by more than the allowed factor is not compiled at greater depth
+        for nm in size_families(4):
+            def sz(k_):
+                p_ = os.path.join(art, "%s_%d.core.json" % (nm, k_))
+                return len(json.load(open(p_))["nodes"]) if os.path.exists(p_) else None
+            if nm not in {e[0] for e in early}:
+                s4, s8, s12 = sz(4), sz(8), sz(12)
+                if s4 and s8 and s8 > 12 * s4:
+                    early.append((nm, "Core size grows from %d (depth 4) to %d (depth 8)" % (s4, s8)))
+                elif s4 and s12 and s12 > 40 * s4:
+                    early.append((nm, "Core size grows from %d (depth 4) to %d (depth 12)" % (s4, s12)))
+    lp = os.path.join(work, "list.json")
+    json.dump([c for c in lst if c["name"].rsplit("_", 1)[0] not in {e[0] for e in early}], open(lp, "w"))
     sccv("pipeline", lp, art, "fun,core,corefs,axcut,axcutlin,x86,a64,rv64", timeout=1200)
     index = {c["name"]: c for c in json.load(open(os.path.join(art, "index.json")))}
     srcsize = {c["name"]: len(c["src"].split()) for c in lst}
     fams = []
     for nm in size_families(4):
+        if nm in {e[0] for e in early}:
+            continue
         for stage, ext in (("core", "core.json"), ("corefs", "corefs.json"), ("axcut", "axcut.json"), ("axcutlin", "axcutlin.json"),
                            ("x86", "x86.asm"), ("a64", "a64.asm"), ("rv64", "rv64.asm")):
             sizes = []
@@ -773,6 +816,9 @@ def check_C19(tier):
     json.dump(fams, open(fp, "w"))
     r = tlc_batch("Sizes", "Sizes.cfg", wd, {"SCCV_CASES": fp}, len(fams), timeout=600, workers=4)
     viols = []
+    for nm, why in early:
+        rp = save_replay("C19", nm + "-early", {"family": nm, "why": why, "source_depth4": size_families(4)[nm]})
+        viols.append({"signature": "C19:%s:core" % nm, "what": "%s: %s (exponential: deeper members not compiled)" % (nm, why), "replay": rp})
     for x in r["results"]:
         if x["status"] == "fail":
             rp = save_replay("C19", x["case"], x)
@@ -781,8 +827,9 @@ def check_C19(tier):
     new = triage("C19", viols)
     write_evidence("C19", tier, "exploration",
                    {"evaluations": len(fams) * len(ks), "distinct_nontrivial": len(fams),
-                    "rule": "6 scalable families (sequenced conditionals, conditionals in operand position, sequenced matches on a "
-                            "3-constructor type, critical pairs, matches in scrutinee position, sequenced labels) at depth 4, 8, 12, 16 "
+                    "rule": "40 scalable families (5 kinds of branch point: if, zero-test, 3-way match, critical pair, label; x 8 positions of "
+                            "the rest of the program: let body, after a call, call argument, operand, constructor argument, destructor "
+                            "argument, after a print, scrutinee) at depth 4, 8, 12, 16 "
                             "through the real pipeline; size = node count of each dumped stage / instruction count of each backend's text; "
                             "spec/Sizes.tla evaluates Growth and Quadratic; a family/stage pair is non-trivial when its four sizes differ",
                     "samples": [{"family": f["name"], "stage": f["stage"], "source_tokens": f["src"], "sizes": f["size"]} for f in fams[:6]],
